@@ -142,3 +142,79 @@ Proof.
   split; [exact ex_t_wf|]. split; [vm_compute; reflexivity|]. split; [vm_compute; reflexivity|].
   intros H. vm_compute in H. discriminate H.
 Qed.
+
+(* ---- Rejuvenate applied with NEW arguments (argdiffs that change the model's arguments) ---- *)
+Lemma update_args_spec p t a c nt w bwd :
+  wf_trace p t -> update_args p t a c = Ok (nt, w, bwd) ->
+  wf_trace p nt /\ t_args nt = a /\ w == score nt - score t
+  /\ choices nt = override (choices t) c /\ bwd = discard (choices t) c.
+Proof.
+  intros [ND H] U. unfold update_args in U. rewrite ND in U.
+  destruct (upd_sites p (t_subs t) c a) as [[[ns w'] b']|] eqn:E; simpl in U; [|discriminate].
+  inversion U; subst; clear U.
+  destruct (upd_sites_spec p (t_subs t) [] c (t_args t) a ns w bwd H) as (W & Hw & Hc & Hb); auto.
+  { simpl. now apply nodupb_NoDup. }
+  unfold wf_trace, score, choices. simpl. repeat split; auto.
+Qed.
+Lemma update_args_same p t c : update_args p t (t_args t) c = update p t c.
+Proof. reflexivity. Qed.
+
+(* the weight is log p(x'; new arguments) + log q(x | x') - log p(x; old arguments) - log q(x' | x), and the new trace
+   holds the new arguments *)
+Lemma rejuvenate_args_weight p q amap k t a nt w bwd :
+  wf_trace p t ->
+  rejuvenate_args p q amap k t a = Ok (nt, w, bwd) ->
+  exists pt lpx lpx' lqf lqb,
+    simulate q (fold_in k 1) (amap (choices t)) = Ok pt /\
+    choices nt = override (choices t) (choices pt) /\
+    bwd = discard (choices t) (choices pt) /\
+    t_args nt = a /\
+    assess p (choices t) (t_args t) = Ok lpx /\
+    assess p (choices nt) a = Ok lpx' /\
+    assess q (choices pt) (amap (choices t)) = Ok lqf /\
+    assess q bwd (amap (choices nt)) = Ok lqb /\
+    w == lpx' + lqb - lpx - lqf /\
+    wf_trace p nt.
+Proof.
+  intros WF R. unfold rejuvenate_args in R.
+  destruct (simulate q (fold_in k 1) (amap (choices t))) as [pt|] eqn:ES; simpl in R; [|discriminate].
+  pose proof (simulate_wf _ _ _ _ ES) as [WFq Hargs].
+  destruct (update_args p t a (choices pt)) as [[[nt' w0] bwd0]|] eqn:EU; simpl in R; [|discriminate].
+  destruct (assess q bwd0 (amap (choices nt'))) as [bs|] eqn:EA; simpl in R; [|discriminate].
+  inversion R; subst; clear R.
+  destruct (assess_wf q pt WFq) as (lqf & Hqf & Hqf'). rewrite Hargs in Hqf.
+  destruct (update_args_spec p t a (choices pt) nt w0 bwd WF EU) as (WFn & Ha & Hw & Hc & Hb).
+  destruct (assess_wf p t WF) as (lpx & Hpx & Hpx').
+  destruct (assess_wf p nt WFn) as (lpx' & Hpn & Hpn'). rewrite Ha in Hpn.
+  exists pt, lpx, lpx', lqf, bs.
+  split; [reflexivity|]. do 7 (split; [assumption|]).
+  split; [|exact WFn]. rewrite Hw, Hpx', Hpn', Hqf'. ring.
+Qed.
+Lemma rejuvenate_args_same p q amap k t : rejuvenate_args p q amap k t (t_args t) = rejuvenate p q amap k t.
+Proof.
+  unfold rejuvenate_args, rejuvenate, rejuvenate_from.
+  destruct (simulate q (fold_in k 1) (amap (choices t))) as [pt|]; simpl; [|reflexivity].
+  rewrite update_args_same. destruct (update p t (choices pt)) as [[[nt w] b]|]; simpl; reflexivity.
+Qed.
+
+(* a model with one argument: the edit changes it, the new trace holds the new argument and the weight differs from the
+   weight under the old argument *)
+Definition ex_pa : list psite :=
+  [ {| ps_addr := 0; ps_args := [V 0]; ps_lp := PMul (C (-1) 2) (PMul (PAdd (V 0) (PMul (C (-1) 1) (V 1))) (PAdd (V 0) (PMul (C (-1) 1) (V 1)))); ps_shift := 0 |};
+    {| ps_addr := 1; ps_args := [V 1];
+       ps_lp := PMul (C (-1) 2) (PMul (PAdd (V 0) (PMul (C (-1) 1) (V 1))) (PAdd (V 0) (PMul (C (-1) 1) (V 1))));
+       ps_shift := 3 |} ].
+Definition ex_ta : strace :=
+  match simulate (prog_of ex_pa) ex_k0 [1#2] with Ok t => t | Err _ => {| t_args := []; t_subs := [] |} end.
+Lemma ex_ta_wf : wf_trace (prog_of ex_pa) ex_ta.
+Proof. apply (simulate_wf (prog_of ex_pa) ex_k0 [1#2] ex_ta). vm_compute. reflexivity. Qed.
+Lemma rejuvenate_args_nonvacuous :
+  wf_trace (prog_of ex_pa) ex_ta /\
+  exists nt w w0 bwd bwd0 nt0,
+    rejuvenate_args (prog_of ex_pa) (prog_of ex_q) (amap_of ex_pa [V 1]) ex_k1 ex_ta [3#2] = Ok (nt, w, bwd) /\
+    rejuvenate (prog_of ex_pa) (prog_of ex_q) (amap_of ex_pa [V 1]) ex_k1 ex_ta = Ok (nt0, w0, bwd0) /\
+    t_args nt = [3#2] /\ ~ w == w0.
+Proof.
+  split; [exact ex_ta_wf|]. do 6 eexists. split; [vm_compute; reflexivity|]. split; [vm_compute; reflexivity|].
+  split; [reflexivity|]. intros H. vm_compute in H. discriminate H.
+Qed.
